@@ -191,6 +191,17 @@ def c02_forms(extended):
     add("r", "init tainted<pint[2]> = C array of raw", "pint ra[2] = { e.raw(), e.raw() }; tainted<pint[2], S> t = ra; sink(e, t[0]);")
     add("r", "store volatile<pint[2]> = std::array of raw", "std::array<pint, 2> ra{ e.raw(), e.raw() }; auto& v = *Wd::tptr<pint[2]>(e.sb, e.off<pint>()); v = ra; sink(e, v[0]);")
     add("r", "store volatile<pint[2]> element = raw", "auto& v = *Wd::tptr<pint[2]>(e.sb, e.off<pint>()); v[1] = e.raw(); sink(e, v[1]);")
+    # std::array / C arrays of raw pointers into integer arrays and pointer arrays of every width
+    for et in ["unsigned long long", "long long", "unsigned long", "long", "unsigned int", "double", "pint", "void*", "cpchar"]:
+        add("r", "store volatile<%s[2]> = std::array of raw pointers" % et,
+            "std::array<pint, 2> ra{ e.raw(), e.raw() }; auto& v = *Wd::tptr<%s[2]>(e.sb, 512); v = ra; sink(e, v[0]);" % et)
+        add("r", "store volatile<%s[2]> = C array of raw pointers" % et,
+            "pint ra[2] = { e.raw(), e.raw() }; auto& v = *Wd::tptr<%s[2]>(e.sb, 512); v = ra; sink(e, v[0]);" % et)
+        add("r", "init tainted<%s[2]> = std::array of raw pointers" % et,
+            "std::array<pint, 2> ra{ e.raw(), e.raw() }; tainted<%s[2], S> t = ra; sink(e, t[0]);" % et)
+    add("r", "store volatile<unsigned long long[2][2]> = nested std::array of raw pointers",
+        "std::array<std::array<pint, 2>, 2> ra{{ {{ e.raw(), e.raw() }}, {{ e.raw(), e.raw() }} }}; auto& v = *Wd::tptr<unsigned long long[2][2]>(e.sb, 512); v = ra; sink(e, v[0][0]);")
+    add("r", "store struct array field = std::array of raw pointers", "std::array<pint, 2> ra{ e.raw(), e.raw() }; auto& v = *Wd::tptr<unsigned long long[2]>(e.sb, 512); v = ra; sink(e, v[1]);")
     # raw function pointers
     add("r", "init tainted<fnp> = raw function", "fnp f = &plain_fn; tainted<fnp, S> t = f; sink(e, t);")
     add("r", "store volatile<fnp> = raw function", "fnp f = &plain_fn; e.V<fnp>() = f; sink(e, e.V<fnp>());")
